@@ -44,6 +44,10 @@ pub enum Target {
     Echo,
     Empty,
     Panic,
+    /// host sub-app "cors.hv" whose CORS configuration was set for the whole sub-app BEFORE its routes were registered:
+    /// a path-aware route `/pa/*` and a plain route `/late` (seeded C01-M)
+    HostPathAware(u32),
+    HostLate,
 }
 
 #[derive(Clone, Debug)]
@@ -96,13 +100,21 @@ impl ReqSpec {
             Target::Echo => "/echo".into(),
             Target::Empty => "/empty".into(),
             Target::Panic => "/panic".into(),
+            Target::HostPathAware(n) => format!("/pa/{}", n),
+            Target::HostLate => "/late".into(),
+        }
+    }
+    pub fn host(&self) -> &'static str {
+        match &self.target {
+            Target::HostPathAware(_) | Target::HostLate => "cors.hv",
+            _ => "hv",
         }
     }
     pub fn query(&self) -> String {
         format!("id={}", self.xid)
     }
     pub fn render(&self) -> Vec<u8> {
-        let mut v = format!("{} {}?{} {}\r\nHost: hv\r\nX-Id: {}\r\n", self.method, self.path(), self.query(), self.version, self.xid).into_bytes();
+        let mut v = format!("{} {}?{} {}\r\nHost: {}\r\nX-Id: {}\r\n", self.method, self.path(), self.query(), self.version, self.host(), self.xid).into_bytes();
         if let Some(c) = &self.conn {
             v.extend_from_slice(format!("Connection: {}\r\n", c).as_bytes());
         }
@@ -125,6 +137,7 @@ impl ReqSpec {
             Target::CorsA => Some(vec![("access-control-allow-origin", vec!["*"]), ("access-control-allow-headers", vec!["*"]), ("access-control-allow-methods", vec!["", "*"])]),
             Target::CorsB => Some(vec![("access-control-allow-origin", vec!["https://a.example, https://b.example"]), ("access-control-allow-methods", vec!["GET, POST"]), ("access-control-allow-headers", vec!["X-Custom, Content-Type"])]),
             Target::CorsC => Some(vec![("access-control-allow-origin", vec!["*"]), ("access-control-allow-methods", vec![""]), ("access-control-allow-headers", vec![""])]),
+            Target::HostPathAware(_) | Target::HostLate => Some(vec![("access-control-allow-origin", vec!["https://h.example"]), ("access-control-allow-methods", vec!["GET, PUT"]), ("access-control-allow-headers", vec!["X-Host"])]),
             _ => None,
         };
         if self.target == Target::Panic && self.method != "OPTIONS" {
@@ -140,6 +153,8 @@ impl ReqSpec {
             Target::CorsA | Target::CorsB | Target::CorsC => (200, format!("C|{}", self.path()).into_bytes()),
             Target::Echo => (200, self.body.clone().unwrap_or_default()),
             Target::Empty => (200, vec![]),
+            Target::HostPathAware(n) => (200, format!("P|/pa/*|/pa/{}", n).into_bytes()),
+            Target::HostLate => (200, b"L|/late".to_vec()),
             Target::Panic => unreachable!(),
         };
         Some(ExpResp { status, body, cors })
@@ -160,7 +175,7 @@ pub fn gen_script(rng: &mut Rng, id: &str, allow_panic: bool, ending: Ending) ->
     let mut reqs = Vec::new();
     for i in 0..n {
         let method = *rng.pick(&["GET", "GET", "POST", "PUT", "DELETE", "OPTIONS"]);
-        let target = match rng.below(if allow_panic { 12 } else { 11 }) {
+        let target = match rng.below(if allow_panic { 14 } else { 13 }) {
             0..=2 => Target::R(rng.below(50) as u32),
             3 => Target::Unrouted,
             4 => Target::CorsA,
@@ -168,6 +183,8 @@ pub fn gen_script(rng: &mut Rng, id: &str, allow_panic: bool, ending: Ending) ->
             6 => Target::CorsC,
             7 | 8 => Target::Echo,
             9 | 10 => Target::Empty,
+            11 => Target::HostPathAware(rng.below(50) as u32),
+            12 => Target::HostLate,
             _ => Target::Panic,
         };
         let last = i + 1 == n;
